@@ -164,6 +164,11 @@ class SocketShim:
       if len(parts) > 4 or len(s) == 0: raise OSError("illegal IP address string passed to inet_aton")
       if len(parts) != 4: raise Inconclusive("inet_aton: fewer than four groups (classful short forms are not modelled)")
       out = []
+      # the C call stops at the first ASCII white-space character after the last group: whatever follows is ignored ("1.2.3.4 xyz" is accepted)
+      last = parts[3]
+      for i_ in range(len(last)):
+        if any(bool(last[i_] == w_) for w_ in ' \t\n\v\f\r'):
+          parts = parts[:3] + [last[:i_]]; break
       for p_ in parts:
         if len(p_) == 0 or len(p_) > 3: raise OSError("illegal IP address string passed to inet_aton")
         if len(p_) > 1 and bool(p_[0] == '0'): raise Inconclusive("inet_aton: octal group")
